@@ -459,5 +459,10 @@ def run(chk: Check) -> None:
     rule_l6(chk)
     rule_l7(chk)
     rule_l8(chk)
+    # L9: a request the limiter refused never reaches a handler (= C04.M1, machine)
+    from .c04 import rule_m1
+    from .common import reuse
+
+    reuse(chk, rule_m1, "L9", "a handler is dispatched only after the chain's truthy verdict in its own callback, or with no chain configured: a request answered 44 is not served (= C04.M1)", ("M1",))
     chk.trusted = ["CPython ast parser", "engine CFG / abstract evaluator", "asyncio runs coroutines without preemption between awaits"]
     chk.assumptions = ["the inequality admitted <= capacity + refill_rate x T and float rounding are not decided"]
